@@ -78,7 +78,7 @@ def replay(chk, drv, path):
         vlib.drive_cases(chk, drv, [mode], [rp["case"]], [chk.seed], tag="replay")
 
 MANIFEST = {
-    "technique": "TLA+ spec Encap: TLC model-checks decoder machine = contract for all reader scripts and enumerates cases; Go driver replays every case into encapsulation.ReadData/WriteData/WritePadding/MaxDataForSize",
+    "technique": "TLA+ specs Encap + EncapSites: TLC model-checks decoder machine = contract for all reader scripts and enumerates cases; Go drivers replay every case into encapsulation.ReadData/WriteData/WritePadding/MaxDataForSize and into the two call sites (client encapsulationPacketConn.ReadFrom/WriteTo, server turbotunnelMode read/write loops incl. real ServeHTTP over WebSocket)",
     "text": "The decoding contract is an explicit TLA+ operator; TLC proves on the bounded grammar (all boundary lengths, prefix widths incl. non-minimal and over-long, truncation points, cyclic reader scripts) that a conforming decoder's result is independent of read fragmentation, and emits every case with its expected result; each case is executed against the real package with a scripted io.Reader. Exhaustive over the contract's partitions, so model_checking bound to code by differential replay.",
     "note": "Bounded: <=3 chunks per stream, reader scripts of length <=3 (cyclic), lengths on each side of the prefix-size boundaries; body bytes seeded pseudo-random; io.ReadFull/io.CopyN trusted.",
 }
